@@ -17,6 +17,8 @@ import (
 	"k8s.io/apimachinery/pkg/runtime"
 
 	"verif/explore"
+	"verif/harness/ctl"
+	"verif/harness/fakeapi"
 	"verif/harness/hx"
 	"verif/runner"
 	"verif/vs"
@@ -186,6 +188,56 @@ func scenario(c cfg) runner.Sc {
 	}
 }
 
+// controllerScenarios: the same property through the whole controller (period 3s): relisting goes on whatever the
+// list latency, lists never overlap, consecutive lists start at least 0.9 periods apart, Close returns.
+func controllerScenarios(tier string) []runner.Sc {
+	d := 2
+	if tier == "thorough" {
+		d = 3
+	}
+	const P = 3 * time.Second
+	orc := func(in *ctl.Inst, r *vs.Result) []string {
+		o := in.O
+		desc := in.Desc()
+		if o.CreateErr != nil || !o.ObserverRan {
+			return []string{"harness | controller scenario did not run: " + desc}
+		}
+		var msgs []string
+		if !o.DoneAtRead && o.PendingTimersAtRead == 0 {
+			msgs = append(msgs, fmt.Sprintf("relisting stopped | %s: controller running but at the quiescent instant of the observation no timer was armed at all (no refresh tick, no list latency pending) (lists so far at %v)", desc, o.ListTimes))
+		}
+		if o.MaxFlight > 1 {
+			msgs = append(msgs, fmt.Sprintf("concurrent lists | %s: %d List calls in flight at once", desc, o.MaxFlight))
+		}
+		for i := 1; i < len(o.ListTimes); i++ {
+			if gap := o.ListTimes[i] - o.ListTimes[i-1]; gap < int64(P)*9/10 {
+				msgs = append(msgs, fmt.Sprintf("list too early | %s: List #%d started %dms after List #%d, less than 0.9 periods (starts %v)", desc, i+1, gap/1e6, i, o.ListTimes))
+				break
+			}
+		}
+		if !o.Finished {
+			msgs = append(msgs, fmt.Sprintf("shutdown hangs | %s: Close() did not return; blocked %v", desc, ctl.BlockedNames(r)))
+		} else if lb := ctl.LibBlocked(r); len(lb) > 0 {
+			msgs = append(msgs, fmt.Sprintf("goroutine leak | %s: %v", desc, lb))
+		}
+		return msgs
+	}
+	mk := func(name string, c ctl.Cfg) runner.Sc {
+		c.Name, c.Period, c.Mode, c.Bound = "controller/"+name, P, "S2", d
+		c.Pre = []ctl.Mut{{Op: "set", Name: "a", Labels: "l=1"}}
+		return ctl.Scenario("C13", c, orc)
+	}
+	lat := func(d time.Duration) map[int]fakeapi.ListFault {
+		return map[int]fakeapi.ListFault{2: {Latency: d}, 3: {Latency: d}}
+	}
+	return []runner.Sc{
+		mk("fast-lists", ctl.Cfg{ReadAt: 8 * time.Second}),
+		mk("list-latency-half-period", ctl.Cfg{ListFaults: lat(1500 * time.Millisecond), ReadAt: 12 * time.Second}),
+		mk("list-latency-1.3-periods", ctl.Cfg{ListFaults: lat(4 * time.Second), ReadAt: 18 * time.Second}),
+		mk("list-latency-2-periods+close-mid-list", ctl.Cfg{ListFaults: lat(6 * time.Second), ReadAt: 12 * time.Second, Close: ctl.CloseSpec{Kind: "close", AfterMut: -1, At: 5 * time.Second}}),
+	}
+}
+
 func Property() runner.Property {
 	return runner.Property{
 		ID:           "C13",
@@ -237,6 +289,7 @@ func Property() runner.Property {
 				s.BudgetS = 900
 				out = append(out, s)
 			}
+			out = append(out, controllerScenarios(tier)...)
 			// cheap (bounded) scenarios first, so that the unbounded ones share what is left of the tier budget
 			sort.SliceStable(out, func(i, j int) bool { return out[i].Mode == "S2" && out[j].Mode != "S2" })
 			return out
